@@ -197,8 +197,31 @@ def _record(res, part, case, info):
         res.trivial_sample = sample_json(case)
 
 
+class CaseTimeout(BaseException):
+    """one case ran longer than VERIF_CASE_LIMIT seconds (default 1800): the shard stops and the run ends as a harness error
+    (exit 2, inconclusive) instead of hanging - a time limit is never reported as a violation"""
+
+
+def _on_alarm(signum, frame):
+    raise CaseTimeout("a case exceeded %s s" % os.environ.get("VERIF_CASE_LIMIT", "1800"))
+
+
 def _run_checked(prop, part, res, case):
     """Run one case; returns True if a (non-known) violation was recorded."""
+    import signal
+    import threading
+    armed = threading.current_thread() is threading.main_thread()
+    if armed:
+        signal.signal(signal.SIGALRM, _on_alarm)
+        signal.alarm(int(os.environ.get("VERIF_CASE_LIMIT", "1800")))
+    try:
+        return _run_checked_(prop, part, res, case)
+    finally:
+        if armed:
+            signal.alarm(0)
+
+
+def _run_checked_(prop, part, res, case):
     try:
         info = part.check(case)
     except Violation as v:
